@@ -16,7 +16,7 @@ ASSUMPTIONS = ["5 new points / 5 training points: all 31 subsets and 120 permuta
 SPECS = {
     "LinearModel": [{}, {"gemini": "wasserstein_ovo", "batch_size": 2}],
     "LinearMMD": [{"kernel": "rbf_g", "ovo": True}], "LinearWasserstein": [{"metric": "l1"}],
-    "RIM": [{"reg": 1.0}], "KernelRIM": [{}, {"base_kernel": "rbf_g", "batch_size": 2}, {"base_kernel": "callable"}],
+    "RIM": [{"reg": 1.0}], "KernelRIM": [{}, {"base_kernel": "rbf_g", "batch_size": 2}, {"base_kernel": "callable"}, {"base_kernel": "rbf"}, {"base_kernel": "laplacian_g"}],
     "MLPModel": [{}, {"gemini": "tv_ova", "n_hidden_dim": 5}], "MLPMMD": [{"kernel": "poly_p"}], "MLPWasserstein": [{"ovo": True}],
     "SparseLinearModel": [{"alpha": 1.0}], "SparseLinearMMD": [{"alpha": 0.5, "groups": [[0, 1]]}], "SparseLinearMI": [{}],
     "SparseMLPModel": [{"alpha": 1.0, "M": 0.5}], "SparseMLPMMD": [{"dynamic": True}],
@@ -71,6 +71,31 @@ def predict_case(case):
     # the subset / permutation checks below then run on a copy for half of the cases
     from mc import transport
     ref_l, ref_p = model.predict(Xnew), (model.predict_proba(Xnew) if hasattr(model, "predict_proba") else None)
+    # between two queries of this fitted model, OTHER objects of the same class work in the process (other hyperparameters, explicit kernel /
+    # metric parameters where this one relies on the defaults, other data): the answers of this one do not move
+    try:
+        import warnings as _w
+        with _w.catch_warnings():
+            _w.simplefilter("ignore")
+            sib_specs = [dict(n_clusters=2, random_state=seed + 5)] if name != "Kauri" else [dict(max_clusters=2, random_state=seed + 5)]
+            klass_ = type(model)
+            pars_ = klass_().get_params()
+            for key_, val_ in (("base_kernel_params", {"gamma": 1e-3}), ("kernel_params", {"gamma": 1e-3}), ("metric_params", {"squared": True})):
+                if key_ in pars_:
+                    extra = {"base_kernel": "rbf"} if key_ == "base_kernel_params" else ({"kernel": "rbf"} if key_ == "kernel_params" else {"metric": "euclidean"})
+                    sib_specs.append(dict(sib_specs[0], **extra, **{key_: val_}))
+            for ss in sib_specs:
+                if "max_iter" in pars_:
+                    ss["max_iter"] = 2
+                sib_ = klass_(**ss)
+                Xs_ = seams.tiny_data(6, d, seed + 47) * 3.0
+                sib_.fit(Xs_)
+                sib_.predict(Xs_[:2])
+                sib_.score(Xs_)
+    except Exception:  # noqa
+        pass
+    if not np.array_equal(model.predict(Xnew), ref_l) or (ref_p is not None and not np.array_equal(model.predict_proba(Xnew), ref_p)):
+        v.append(violation("answers_change_after_other_objects_worked", {"estimator": name}, **where))
     for kind_, cp_ in transport.copies(model):
         if isinstance(cp_, Exception):
             v.append(violation("transported_copy_answers_differently", {"transport": kind_, "error": repr(cp_)[:200]}, transport=kind_, **where))
